@@ -297,6 +297,9 @@ M("c17.eccpoint.curve448.revert", "C17", "lib/Crypto/PublicKey/_point.py", "    
 M("c19.ed448.add.wp.revert", "C19", "src/ed448.c", "                       ecpa->wp, ctx);", "                       ecpb->wp, ctx);", "P6-c|c|edwards.points")
 M("c19.pbes.prot_params.pop", "C19", "lib/Crypto/IO/_PBES.py", 'salt = randfunc(prot_params.get("salt_size", 8))', 'salt = randfunc(prot_params.pop("salt_size", 8))', "P4|container|_PBES.PBES2.encrypt")
 M("c09.siv.subkey.view.revert", "C09", "lib/Crypto/Cipher/_mode_siv.py", "        self._subkey_cipher = _copy_bytes(subkey_size, None, key)", "        self._subkey_cipher = key[subkey_size:]", "P4|retain|_mode_siv.SivMode.__init__|_subkey_cipher")
+HPKEPY = "lib/Crypto/Protocol/HPKE.py"
+M("c15.hist.nonce.byteorder", "C15", HPKEPY, "self._sequence.to_bytes(self._Nn, 'big')", "self._sequence.to_bytes(self._Nn, 'little')", "N|hpke")
+M("c15.hist.aad.dropped", "C15", HPKEPY, "        if auth_data:\n            cipher.update(auth_data)\n\n        try:", "        try:", "N|hpke.histories")
 RSAPY = "lib/Crypto/PublicKey/RSA.py"
 M("c07.toy.rsa.crt.h", "C07", RSAPY, "h = ((m2 - m1) * self._u) % self._q", "h = ((m1 - m2) * self._u) % self._q", "K-pw|rsa.toy.decrypt")
 M("c07.toy.rsa.crt.abs", "C07", RSAPY, "h = ((m2 - m1) * self._u) % self._q", "h = (abs(m2 - m1) * self._u) % self._q", "K-pw|rsa.toy.decrypt")
